@@ -7,6 +7,7 @@
 #ifndef CHAISCRIPT_VERIF_SYNC_HPP_
 #define CHAISCRIPT_VERIF_SYNC_HPP_
 
+#include <atomic>
 #include <mutex>
 #include <shared_mutex>
 
@@ -27,7 +28,8 @@ namespace chaiscript_verif {
     site_op_end = 6,
     site_callback = 7,
     site_file = 8,
-    site_blocked = 9
+    site_blocked = 9,
+    site_hint = 10
   };
 
   class shared_mutex {
@@ -118,6 +120,19 @@ namespace chaiscript_verif {
 
   using mutex = basic_mutex<std::mutex, site_lock_excl>;
   using recursive_mutex = basic_mutex<std::recursive_mutex, site_lock_rec>;
+
+  // H4 seam: the per-node lookup hints are atomics shared by every thread that evaluates the node; the
+  // places where a lookup reads or is about to write one are scheduling points when a world asks for it
+  // (off by default: every identifier lookup would otherwise be a yield)
+  inline std::atomic<bool> &hint_points_enabled() {
+    static std::atomic<bool> flag{false};
+    return flag;
+  }
+  inline void hint_point(const void *obj) {
+    if (hint_points_enabled().load(std::memory_order_relaxed) && sim_active()) {
+      sim_yield(site_hint, obj);
+    }
+  }
 } // namespace chaiscript_verif
 
 #endif
